@@ -51,6 +51,24 @@ class BackendProxy:
         return self.inner.find_for_inquiry(inquiry, checker)
 
 
+def decisions_differ(ec, backend, found):
+    """for every tag a candidate search showed (and one that is stored nowhere): the decision of a guard over the cache
+    must be the decision of a guard directly over the backend"""
+    import re
+    from vakt.guard import Guard, Inquiry
+    from vakt.checker import StringExactChecker
+    tags = sorted(set(int(t) for t in re.findall(r'=(\d+)', found)))
+    tags = tags[:2] + tags[-1:] + [999999]        # a few stored tags and one that is stored nowhere
+    bad = []
+    for t in tags:
+        inq = dict(subject='s', resource='r', action='a%d' % t, context={'k': t})
+        a = Guard(ec, StringExactChecker()).is_allowed(Inquiry(**inq))
+        b = Guard(backend, StringExactChecker()).is_allowed(Inquiry(**inq))
+        if a is not b:
+            bad.append('%d:%s/%s' % (t, a, b))
+    return '+DECISIONS-DIFFER(%s)' % ','.join(bad) if bad else ''
+
+
 def run_enfold(c):
     from vakt.cache import EnfoldCache
     from vakt.storage.memory import MemoryStorage
@@ -79,6 +97,8 @@ def run_enfold(c):
                 r = 'rejected'
             proxy.armed = False
             touched = proxy.reads > 0
+            if op[0] == 'find' and r.startswith('find:'):
+                r += decisions_differ(ec, h.storage, r)
             out.append('%s r=%s b=%s c=%s' % (r, 'T' if touched else 'F', storelib.dump(h.storage),
                                               storelib.dump(cache)))
         return ' | '.join(out)
@@ -94,7 +114,9 @@ class EnfoldStream(Stream):
     rule = ('a backend (Memory, SQLite, fake Redis x2, fake Mongo) pre-loaded with 0-4 policies, an in-memory cache '
             'store, population at construction / by a later populate() with batch size 1..n / never; then '
             'operation sequences through EnfoldCache with a backend failure injected at mutation positions '
-            '(every position is covered across the variants of a history); compared after every step: result, '
+            '(every position is covered across the variants of a history), with candidate searches (find_for_inquiry) '
+            'through the cache in between, each followed by decisions through the cache and directly over the backend '
+            'for every tag found; compared after every step: result, '
             'whether the backend was read, both stores. non-trivial = populated case with an injected failure '
             'followed by a successful mutation')
 
@@ -117,6 +139,13 @@ class EnfoldStream(Stream):
             # no in-place modification of returned objects here: the cache store is a MemoryStorage, which hands out
             # the stored object itself (aliasing is C09's subject, not coherence)
             ops = [['get', o[1]] if o[0] == 'poke' else o for o in ops]
+            # candidate searches (and, with them, decisions) through the cache, interleaved with the mutations
+            k = 0
+            while k <= len(ops):
+                if rng.random() < 0.3:
+                    ops.insert(k, ['find'])
+                    k += 1
+                k += 1
             for o in ops:
                 if o[0] in ('add', 'update'):
                     o[2] += 1000
@@ -135,7 +164,8 @@ class EnfoldStream(Stream):
             storelib.BACKENDS[c['backend']],
             e_list(['(%s, %s)' % (e_pstr(k), e_N(t)) for k, t in c['init']], '(pstr * N)'),
             e_option(pop_z, e_Z, 'Z'),
-            e_list(['(%s, %s)' % (storelib.e_op(o), e_bool(f)) for o, f in c['ops']], '(kop * bool)'))
+            e_list(['(%s, %s, %s)' % (storelib.e_op(o), e_bool(f), e_bool(o[0] == 'find')) for o, f in c['ops']],
+                   '(kop * bool * bool)'))
 
     def impl(self, c):
         return run_enfold(c)
